@@ -506,7 +506,7 @@ def gen_cases(rng, n_base, per_base):
         # AFTER a contained fault: the failing track bears a name; later in the performance a new track is scheduled under that name
         # (the live coder's reaction to the warning), the failed Track object is updated / unscheduled, the track limit had been
         # reached before the fault
-        if b % 2 == 0 and sites:
+        if b % 3 == 0 and sites:
             used = [t["chan"] for t in desc["tracks"]]
             free = [c for c in range(16) if c not in used]
             (f, idx) = min(sites, key=lambda s_: (s_[1] > 1, rng.random()))
@@ -533,7 +533,7 @@ def gen_cases(rng, n_base, per_base):
                 dm = marker_variant(da, f, idx)
                 i_mark = plan.add(("mark-after", b, f, idx), dm)
                 i_minus = plan.add(("minus-after", b, f), without(da, {f}))
-                for ignore in (True, False):
+                for ignore in (True,):            # after a fault that ESCAPED the performance is over: tolerant mode only
                     i_run = plan.add(("after", b, f, idx, item, ignore), da, mode_ignore=ignore)
                     cases.append({"kind": "stream", "site": "after-fault", "b": b, "f": [f], "idx": [idx], "ignore": ignore, "ctor": ignore,
                                   "flips": [], "item": item, "run": i_run, "mark": [i_mark], "minus": i_minus, "base": i_base, "desc": da,
